@@ -681,6 +681,9 @@ func c01Spec(v *verifOut, cons string, n int, idx int) wSpec {
 		spec.dropProb, spec.dupProb = 0.05*float64(rng.Intn(4)), 0.03*float64(rng.Intn(3))
 	}
 	spec.withhold = rng.Intn(4) == 0
+	if rng.Intn(3) == 0 {
+		spec.fetchFail = 0.15 * float64(1+rng.Intn(3)) // flaky block fetches
+	}
 	return spec
 }
 
@@ -696,7 +699,7 @@ func TestVerifC01(t *testing.T) {
 	v := verifNew("C01")
 	s := v.Stream("hist", "hist_mismatches", 12)
 	sf := v.Stream("fhist", "fhist_mismatches", 12)
-	nh := v.Pick(40, 1200)
+	nh := v.Pick(100, 1500)
 	steps := v.Pick(350, 500)
 	emitHist := func(cons string, n int, spec wSpec, res *c01Result, tag string) {
 		h := res.hist
@@ -748,6 +751,13 @@ func TestVerifC01(t *testing.T) {
 			}
 			emitHist(cons, 4, res.hist.spec, res, "script-"+variant)
 		}
+	}
+	for _, cons := range []string{"chainedhotstuff", "simplehotstuff", "fasthotstuff"} {
+		res, err := c01CatchUp(cons, 7)
+		if err != nil {
+			t.Fatalf("world: %v", err)
+		}
+		emitHist(cons, 4, res.hist.spec, res, "script-catch-up-partial-fetch")
 	}
 	for _, variant := range []string{"fhs-honest", "fhs-stale-highqc", "fhs-old-aggqc"} {
 		res, err := c01DirectedFast(variant, 7)
@@ -1039,6 +1049,78 @@ func c01DirectedFast(variant string, seed int64) (*c01Result, error) {
 					}
 				}
 			}
+		}
+	}
+	return c01Finish(h, live, 0), nil
+}
+
+// c01CatchUp: four honest replicas, replica 1 leads every view. Replica 4 is cut off while the
+// others build and commit a chain; then the partition heals, but block fetches by replica 4 for
+// the two oldest blocks of the chain fail (lost requests). Replica 4 must either commit the
+// whole chain from genesis or nothing - never a suffix above the gap.
+func c01CatchUp(cons string, seed int64) (*c01Result, error) {
+	spec := wSpec{consensus: cons, n: 4, seed: seed}
+	for i := 0; i < 40; i++ {
+		spec.leaders = append(spec.leaders, 1)
+	}
+	w, err := newWorld(spec)
+	if err != nil {
+		return nil, err
+	}
+	h := newC01Hist(w, spec)
+	var live []*wNode
+	for _, id := range w.order {
+		live = append(live, w.nodes[id])
+	}
+	lag := NodeID{ReplicaID: 4}
+	for _, id := range w.order {
+		w.partition[id] = 0
+	}
+	w.partition[lag] = 1
+	deliver := func(max int) {
+		for i := 0; i < max && len(w.pending) > 0; i++ {
+			m := w.pending[0]
+			w.pending = w.pending[1:]
+			to := w.nodes[m.to]
+			if p, ok := m.payload.(hotstuff.ProposeMsg); ok {
+				w.regProposal(&p)
+			}
+			to.eventLoop.AddEvent(m.payload)
+			w.drain(to)
+			h.observe(to)
+		}
+	}
+	timeouts := func(nodes []*wNode) {
+		for _, nd := range nodes {
+			nd.eventLoop.AddEvent(hotstuff.TimeoutEvent{View: nd.viewStates.View()})
+			w.drain(nd)
+			h.observe(nd)
+		}
+	}
+	w.start()
+	for _, nd := range live {
+		h.observe(nd)
+	}
+	// phase 1: replicas 1..3 run until at least 7 blocks exist (fast-hotstuff only moves by timeouts)
+	for round := 0; round < 400 && len(w.blockSeq) < 8; round++ {
+		deliver(6)
+		if len(w.pending) == 0 && len(w.blockSeq) < 8 {
+			timeouts(live[:3])
+		}
+	}
+	// phase 2: heal; fetches of the two oldest non-genesis blocks by replica 4 fail
+	deny := map[hotstuff.Hash]bool{}
+	for _, b := range w.blockSeq {
+		if b.View() == 1 || b.View() == 2 {
+			deny[b.Hash()] = true
+		}
+	}
+	w.fetchDeny = func(req NodeID, x hotstuff.Hash) bool { return req == lag && deny[x] }
+	w.partition[lag] = 0
+	for round := 0; round < 10 && len(w.blockSeq) < 40; round++ {
+		deliver(40)
+		if len(w.pending) == 0 {
+			timeouts(live)
 		}
 	}
 	return c01Finish(h, live, 0), nil
